@@ -503,6 +503,41 @@ class World:
                 problems.append(("foreign-file", k[len(root):]))
         return dict(bind=bind2, mem=mem2, lex=lex2, obj=obj2, meta=meta2, problems=problems)
 
+    def concrete_state(self):
+        """fully concrete abstraction of the current store (forces every lazy decision; use with pinned states)"""
+        b = self._backend()
+        bind, lists, obj, meta = [], [], [], []
+        for i in range(self.NP):
+            p = self.PIDREF[i]
+            if not b.isfile(p):
+                bind.append(-1)
+            else:
+                c = b.read(p).decode("utf8", "replace")
+                bind.append(self.cids.index(c) if c in self.cids else "garbled:" + c[:20])
+        for j in range(self.NC):
+            p = self.CIDREF[j]
+            lists.append(tuple(sorted(b.read(p).decode("utf8", "replace").splitlines())) if b.isfile(p) else None)
+            o = self.OBJ[j]
+            obj.append(None if o is None else (b.read(o) == self.contents[j] if b.isfile(o) else False))
+        for i in range(self.NP):
+            row = []
+            for f in range(self.NF):
+                p = self.META[i][f]
+                if not b.isfile(p):
+                    row.append(-1)
+                else:
+                    d = b.read(p)
+                    row.append(self.docs.index(d) if d in self.docs else "garbled:" + repr(d[:20]))
+            meta.append(tuple(row))
+        known = set(self.PIDREF) | set(self.CIDREF) | set(o for o in self.OBJ if o) | \
+            set(m for r in self.META for m in r) | {"/s/hashstore.yaml"}
+        if self.mode == "model":
+            extra = sorted(k[2:] for k in b.files if k.startswith("/s/") and k not in known and b.isfile(k))
+        else:
+            extra = sorted(k[2:] for k in b.snapshot("/s/") if k not in known)
+        extra = [("tmp-file" if "/tmp/" in k else k) for k in extra]
+        return (tuple(bind), tuple(lists), tuple(obj), tuple(meta), tuple(extra))
+
     def pre(self):
         return dict(bind=list(self.bind), mem=[self.members_term(j) for j in range(self.NC)],
                     lex=[z3.Or(self.members_term(j)) for j in range(self.NC)], obj=list(self.obj),
